@@ -107,6 +107,12 @@ func VerifyFunc(w *World, spec *FuncSpec, prop string, safetyAll bool) (res *Fun
 	// vacuity guard: the entry hypotheses must be satisfiable
 	x.obls = append(x.obls, &Obligation{Name: res.Fn + "#vacuity:requires satisfiable", Fn: res.Fn, Kind: "vacuity", Hyps: []string{st.pc}, Goal: "", VC: x.vc, Props: spec.Props})
 	x.runBody(fr, st)
+	for _, e := range spec.Exits {
+		if x.clauseActive(e) && x.exitHits[e.Name()] == 0 {
+			x.curState = fr.entry
+			x.bindingFailure(fmt.Sprintf("exit clause %q applies at no return of %s", e.Name(), res.Fn))
+		}
+	}
 	res.Obls = x.obls
 	res.Unsup = x.unsup
 	for a := range x.assumes {
